@@ -382,7 +382,7 @@ func c01Body(s *simkit.Sim, rc *simkit.RunCtx) {
 	revoked := false        // the issuer revoked
 	revokedKnownBy := false // ... and the verifier has downloaded the list since
 	issuerActive := true
-	trusted := false // the verifier trusts the issuer for this credential type
+	trusted := false           // the verifier trusts the issuer for this credential type
 	var lastDownload time.Time // the verifier's last download of the status list (observed at the transport)
 	w.HTTP.Observe = func(rec *seams.HTTPRecord) {
 		if rec.Method == "GET" && strings.Contains(rec.Path, "/statuslist/") && rec.Status == 200 && rec.Fault == "" {
